@@ -416,7 +416,7 @@ pub fn run(ctx: &Ctx) -> i32 {
         salt: 0x0501_0000,
         nshards: 64,
         enumerated: &enumerated,
-        random_cases: tier.pick(600_000, 30_000_000),
+        random_cases: tier.pick(4_000_000, 60_000_000),
         build_random: &|e| build(e, &Force::default()),
         classify: &|c, j, t: &Tag, s| classify(c, j, t, s),
         all_quirks: false,
@@ -426,7 +426,7 @@ pub fn run(ctx: &Ctx) -> i32 {
     stats.exhaustive_subspaces.insert("Bcc d:16: 16 conditions x 256 CCR (displacements sampled)".into(), 16 * 256);
 
     // (d) programs
-    let nprog: u32 = tier.pick(20_000, 1_000_000);
+    let nprog: u32 = tier.pick(100_000, 2_000_000);
     let nshards = 32usize;
     let pstats = par_shards(ctx, nshards, |shard| {
         let w = Worker::new(ctx);
